@@ -37,14 +37,19 @@ func c09Open(driver string) *c09 {
 		// transactions of a query round several times faster than badger (-mode badger)
 		driver = "bolt"
 	}
-	dir := ScratchDir("c09-" + driver)
+	// pure scratch, created and removed by this run: on tmpfs when there is one (every Update of
+	// bolt/badger fsyncs, which on a shared disk costs 10-20x the run time), else below $VERIF_WORK
+	dir, err := os.MkdirTemp("/dev/shm", "grip-verif-c09-"+driver+"-")
+	if err != nil {
+		dir = ScratchDir("c09-" + driver)
+	}
 	path := dir
 	if driver == "bolt" {
 		path = dir + "/bolt.db"
 	}
-	kv, err := kvi.NewKVInterface(driver, path, nil)
-	if err != nil {
-		panic(err)
+	kv, kerr := kvi.NewKVInterface(driver, path, nil)
+	if kerr != nil {
+		panic(kerr)
 	}
 	return &c09{driver: driver, dir: dir, kv: kv, idx: kvindex.NewIndex(kv)}
 }
